@@ -125,7 +125,9 @@ def halton_function(ctx: Context) -> None:
     ctx.check(ok, "R1.halton-indices", "halton:index-range", "halton() visits the consecutive indices n_start+1 .. n_start+sample_size",
               f"halton() iterates `{src(lp.iter)}`", f, lp)
     ix = lp.target.id if isinstance(lp.target, ast.Name) else "index"
-    stores = [s for s in ast.walk(lp) if isinstance(s, ast.Assign) and isinstance(s.targets[0], ast.Subscript) and src(s.targets[0].value) == "sequence"]
+    rets0 = returns_of(f)
+    out_name = src(rets0[0].value) if rets0 and isinstance(rets0[0].value, ast.Name) else "sequence"
+    stores = [s for s in ast.walk(lp) if isinstance(s, ast.Assign) and isinstance(s.targets[0], ast.Subscript) and src(s.targets[0].value) == out_name]
     ok = len(stores) == 1
     if ok:
         sl = stores[0].targets[0].slice
@@ -133,11 +135,12 @@ def halton_function(ctx: Context) -> None:
         ok = n.rat(row).equals(n.rat(parse_expr(f"{ix} - 1 - n_start")))
     ctx.check(ok, "R1.halton-indices", "halton:row-of-index", "index i is stored in row i-1-n_start (no gap, no overlap)",
               f"row store is `{src(stores[0]) if stores else '?'}`", f, stores[0] if stores else lp)
-    alloc = [s.value for s in f.node.body if isinstance(s, (ast.Assign, ast.AnnAssign)) and isinstance(s.value, ast.Call) and src(s.targets[0] if isinstance(s, ast.Assign) else s.target) == "sequence"]
-    ok = bool(alloc) and src(kwarg(alloc[0], "shape", 0)) in ("(sample_size, nb_bases)", "(sample_size, len(bases))")
+    alloc = [s.value for s in f.node.body if isinstance(s, (ast.Assign, ast.AnnAssign)) and isinstance(s.value, ast.Call) and src(s.targets[0] if isinstance(s, ast.Assign) else s.target) == out_name]
+    nin = normaliser(ctx.prog, f)
+    ok = bool(alloc) and kwarg(alloc[0], "shape", 0) is not None and str(nin.rat(kwarg(alloc[0], "shape", 0))) == str(nin.rat(parse_expr("(sample_size, len(bases))")))
     ctx.check(ok, "R1.halton-shape", "halton:shape", "result has sample_size rows and one column per base", f"allocation `{src(alloc[0]) if alloc else '?'}`", f, alloc[0] if alloc else f.node)
     for r in returns_of(f):
-        ctx.check(src(r.value) == "sequence", "R1.halton-shape", "halton:return", "returns the filled array", f"returns `{src(r.value)}`", f, r)
+        ctx.check(isinstance(r.value, ast.Name) and bool(alloc), "R1.halton-shape", "halton:return", "returns the filled array", f"returns `{src(r.value)}`", f, r)
 
 
 def rseq_cursor(ctx: Context) -> None:
@@ -248,19 +251,23 @@ def rseq_scalars(ctx: Context) -> None:
     f = ctx.func(f"{RS}.compute_phi")
     n = normaliser(ctx.prog, f, inline_locals=False)
     d = f.bound_params[0]
-    inits = [s for s in walk_scope(f.node) if isinstance(s, (ast.Assign, ast.AnnAssign)) and src(s.targets[0] if isinstance(s, ast.Assign) else s.target) == "phi" and not any(x is s for w in walk_scope(f.node) if isinstance(w, ast.While) for x in ast.walk(w))]
-    ok = len(inits) == 1 and isinstance(inits[0].value, ast.Constant) and inits[0].value.value == 2.0
-    ctx.check(ok, "R4.phi", "RSequenceSampler.compute_phi:start", "the fixed-point iteration starts from 2.0", "phi does not start from 2.0", f, inits[0] if inits else f.node)
+    rets = returns_of(f)
+    if not rets or not isinstance(rets[0].value, ast.Name):
+        raise AnalysisError("compute_phi does not return a local; cannot identify the iterated value")
+    phi = rets[0].value.id
     loops = [w for w in walk_scope(f.node) if isinstance(w, ast.While)]
     ctx.floor("R4", "fixed-point loop in compute_phi", len(loops), 1)
     w = loops[0]
-    upd = [s for s in ast.walk(w) if isinstance(s, ast.Assign) and src(s.targets[0]) == "phi"]
-    ok = len(upd) == 1 and n.rat(upd[0].value).equals(n.rat(parse_expr(f"(1 + phi) ** (1.0 / ({d} + 1))")))
+    inits = [s for s in walk_scope(f.node) if isinstance(s, (ast.Assign, ast.AnnAssign)) and src(s.targets[0] if isinstance(s, ast.Assign) else s.target) == phi and not any(x is s for x in ast.walk(w))]
+    ok = len(inits) == 1 and isinstance(inits[0].value, ast.Constant) and inits[0].value.value == 2.0
+    ctx.check(ok, "R4.phi", "RSequenceSampler.compute_phi:start", "the fixed-point iteration starts from 2.0", "phi does not start from 2.0", f, inits[0] if inits else f.node)
+    upd = [s for s in ast.walk(w) if isinstance(s, ast.Assign) and src(s.targets[0]) == phi]
+    ok = len(upd) == 1 and n.rat(upd[0].value).equals(n.rat(parse_expr(f"(1 + {phi}) ** (1.0 / ({d} + 1))")))
     ctx.check(ok, "R4.phi", "RSequenceSampler.compute_phi:update", "phi <- (1 + phi)^(1/(d+1))", f"phi update is `{src(upd[0].value) if upd else '?'}`", f, upd[0] if upd else w)
-    ok = n.canon(w.test) in (n.canon(parse_expr("old_phi != phi")), n.canon(parse_expr("phi != old_phi")))
+    # the loop runs until the value no longer changes: the test compares phi with the local that holds its previous value
+    prev = [src(s.targets[0]) for s in ast.walk(w) if isinstance(s, ast.Assign) and src(s.value) == phi and isinstance(s.targets[0], ast.Name)]
+    ok = bool(prev) and n.canon(w.test) in (n.canon(parse_expr(f"{prev[0]} != {phi}")), n.canon(parse_expr(f"{phi} != {prev[0]}")))
     ctx.check(ok, "R4.phi", "RSequenceSampler.compute_phi:fixed-point", "iterated until phi no longer changes", f"loop condition is `{src(w.test)}`", f, w)
-    for r in returns_of(f):
-        ctx.check(src(r.value) == "phi", "R4.phi", "RSequenceSampler.compute_phi:return", "returns phi", f"returns `{src(r.value)}`", f, r)
 
 
 def plumbing(ctx: Context) -> None:
